@@ -114,8 +114,32 @@ def r1(F, R):
             for fld, inst in ((("gherkin::Step", "value"), "step-text"), (("gherkin::Step", "docstring"), "doc-string"), (("gherkin::Table", "rows"), "table-cells")):
                 R.check(fld in cover, f"sink/{inst}", s, f"{fld[1]} is substituted", f"placeholders in a step's {inst.replace('-', ' ')} are not substituted ({fld[0]}.{fld[1]} is not part of the substituted values)")
     R.check(ok_loop, "sink/value-loop", dw[0][0] if dw else rk, "*value = replace_templates(value)?", "step values are not overwritten with the substitution result")
+    # every step and every value is substituted: inside the loops the substitution is conditioned on nothing but the
+    # iterators producing another element (and the `?` of an earlier substitution)
+    for cs, ct in calls:
+        extra = []
+        for g in A.guards_of(rk, cs):
+            d = g.cond_def()
+            src = None
+            if d and d[0] == "discr":
+                l = d[1]["l"]
+                for _ in range(6):
+                    dd = A.local_def_desc(rk, l)
+                    if dd[0] == "call":
+                        src = dd[2]
+                        break
+                    if dd[0] == "place":
+                        l = dd[1]["l"]
+                        continue
+                    break
+                if src is not None and callee_is(src, r"Iterator::next$", r"Try::branch$"):
+                    continue
+            if d and d[0] == "discr" and src is None and getattr(g, "derived", False):
+                continue
+            extra.append(A.describe_operand(rk, g.term["discr"]))
+        R.check(not extra, "sink/unconditional", cs, "substitution applied to every step / value", f"a substitution is skipped under a condition ({extra}): placeholders of such steps stay unsubstituted")
     # the steps loop covers every step: iter_mut over Scenario.steps without lossy adaptors
-    R.floor(6)
+    R.floor(8)
 
 
 def _into_iter_src(body, op):
@@ -209,7 +233,39 @@ def r3(F, R):
     pb = [b for b in F.crate_bodies() if b.name.startswith("<parser::basic::Basic") or b.name.startswith("parser::basic::")]
     uses = [(b, s2) for b in pb for s2, t2 in b.calls(lambda t2: callee_is(t2, r"feature::Ext::expand_examples$"))]
     R.check(len(uses) >= 1, "parser-expands", uses[0][1] if uses else None, "parser::Basic calls expand_examples", "parser::Basic no longer expands outlines")
-    R.floor(5)
+    # ... and every value the file-reading closure returns that was read from a file went through the expanding map
+    PARSE = r"gherkin::Feature::parse_path$|gherkin::Feature::parse$|Feature::parse_path$"
+
+    def reads_files(b2, t2, depth=0):
+        if callee_is(t2, PARSE):
+            return True
+        kb = None
+        if callee_is(t2, r"ops::Fn(Once|Mut)?::call(_once|_mut)?$"):
+            kb = A.closure_of_operand(F, b2, t2["args"][0])
+        elif F.callee_body(t2, b2.crate) is not None:
+            kb = F.callee_body(t2, b2.crate)
+        if kb is not None and depth < 3:
+            return any(reads_files(nb, t3, depth + 1) for nb in F.nested(kb) for _, t3 in nb.calls())
+        return False
+    n_ret, bad = 0, None
+    for mk, s_use in uses:
+        fc = F.parent_body(mk) if mk.kind == "Closure" else mk
+        if fc is None:
+            continue
+        emaps = [s2 for s2, t2 in fc.calls(lambda t2: callee_is(t2, r"Iterator::(map|flat_map|filter_map)$") and A.closure_of_operand(F, fc, t2["args"][1]) is mk)]
+        for site, kind, payload in fc.defs.get(0, []):
+            ops = A.rvalue_operands(payload["rv"]) if kind == "assign" else payload["args"]
+            sl = A.slice_back(fc, ops)
+            calls = list(sl.calls) + ([(site, payload)] if kind == "call" else [])
+            src = any(reads_files(fc, t2) for _, t2 in calls)
+            if not src:
+                continue
+            n_ret += 1
+            if not any(cs in emaps for cs, _ in calls):
+                bad = "a value returned by the file-reading closure was read from files but did not pass through the expand_examples map (one way of locating the files skips the expansion)"
+    R.check(bad is None and n_ret >= 1, "parser-expands-on-every-path", uses[0][1] if uses else None, "every returned parsed feature went through the expanding map",
+            bad or "no returned value of the parser derives from parsed files")
+    R.floor(6)
 
 
 def r4(F, R):
